@@ -58,6 +58,25 @@ func checkC07(p *Program, r *Reporter) {
 	e.ruleRace(r, "E2-RACE", func(tid string) bool {
 		return appTypes[tid] || strings.HasPrefix(tid, "global:app") || strings.HasPrefix(tid, "global:drm") || strings.HasPrefix(tid, "global:logging")
 	})
+	r.Rule("C07-HISTORY", "request-serving code stores nothing into a sync.Map (a response cache makes answers depend on earlier requests)", 0)
+	for _, fn := range p.handlerReachableRepoFuncs() {
+		if sideOfPkg(calleePkgPath(fn)) == "recv" {
+			continue
+		}
+		for _, b := range fn.Blocks {
+			for _, in := range b.Instrs {
+				c, ok := in.(*ssa.Call)
+				if !ok || c.Call.StaticCallee() == nil {
+					continue
+				}
+				switch c.Call.StaticCallee().String() {
+				case "(*sync.Map).Store", "(*sync.Map).LoadOrStore", "(*sync.Map).Swap", "(*sync.Map).CompareAndSwap":
+					r.Violate("C07-HISTORY", shortFn(fn), "call:"+c.Call.StaticCallee().Name()+":"+roleKey(c.Call.Args[0]), p.pos(c.Pos()),
+						"request-serving code stores into a sync.Map: what a later request is answered with then depends on which requests came before (race-free, but not a function of URL and time)", nil)
+				}
+			}
+		}
+	}
 	r.Rule("C07-NONDET", "no handler-reachable call of math/rand, crypto/rand, os.Getenv", 0)
 	for _, fn := range p.handlerReachableRepoFuncs() {
 		if sideOfPkg(calleePkgPath(fn)) == "recv" {
